@@ -141,16 +141,24 @@ impl ServerState {
   pub fn update(&mut self, updates: Vec<(ModuleReference, String)>) {
     let mut error_set = ErrorSet::new();
     let initial_update_set = updates.iter().map(|(m, _)| *m).collect::<HashSet<_>>();
+    // Only the syntax errors of the final text of each module count,
+    // even if the batch updates the same module more than once.
+    let mut syntax_errors = HashMap::new();
     for (mod_ref, source_code) in updates {
+      let mut local_error_set = ErrorSet::new();
       let parsed = samlang_parser::parse_source_module_from_text(
         &source_code,
         mod_ref,
         &mut self.heap,
-        &mut error_set,
+        &mut local_error_set,
       );
+      syntax_errors.insert(mod_ref, local_error_set);
       self.global_cx.insert(mod_ref, build_module_signature(mod_ref, &parsed));
       self.string_sources.insert(mod_ref, source_code);
       self.parsed_modules.insert(mod_ref, parsed);
+    }
+    for (_, local_error_set) in syntax_errors {
+      error_set.merge(local_error_set);
     }
     self.dep_graph = DependencyGraph::new(&self.parsed_modules);
     let recheck_set = self.dep_graph.affected_set(initial_update_set.clone());
@@ -163,22 +171,32 @@ impl ServerState {
       .dep_graph
       .affected_set(renames.iter().flat_map(|(a, b)| vec![*a, *b].into_iter()).collect());
     let mut reparsed_set = HashSet::new();
+    // Only the syntax errors of the module that finally lives under a name count,
+    // even if the batch moves modules onto or away from the same name more than once.
+    let mut syntax_errors = HashMap::new();
     for (old_mod_ref, new_mod_ref) in renames {
       if let Some(source) = self.string_sources.remove(&old_mod_ref) {
+        reparsed_set.remove(&old_mod_ref);
+        syntax_errors.remove(&old_mod_ref);
         reparsed_set.insert(new_mod_ref);
         self.parsed_modules.remove(&old_mod_ref).unwrap();
+        let mut local_error_set = ErrorSet::new();
         let parsed = samlang_parser::parse_source_module_from_text(
           &source,
           new_mod_ref,
           &mut self.heap,
-          &mut error_set,
+          &mut local_error_set,
         );
+        syntax_errors.insert(new_mod_ref, local_error_set);
         self.global_cx.remove(&old_mod_ref).unwrap();
         self.global_cx.insert(new_mod_ref, build_module_signature(new_mod_ref, &parsed));
         self.string_sources.insert(new_mod_ref, source);
         self.parsed_modules.insert(new_mod_ref, parsed);
       }
       self.checked_modules.remove(&old_mod_ref);
+    }
+    for (_, local_error_set) in syntax_errors {
+      error_set.merge(local_error_set);
     }
     self.dep_graph = DependencyGraph::new(&self.parsed_modules);
     self.recheck(error_set, &recheck_set, &reparsed_set);
